@@ -165,7 +165,9 @@ class CommandHelp(AbstractHelp):
         if application and application.config.name:
             script_name = application.config.name
 
-        help = help.format(script_name=script_name, command_name=self._command.name)
+        help = self._format_help(
+            help, script_name=script_name, command_name=self._command.name
+        )
 
         layout.add(Paragraph("<b>DESCRIPTION</b>"))
         with layout.block():
